@@ -37,7 +37,7 @@ PREDEFINED = {
     'FB': ('FixedLimitBadugi', 'smallbig', 6, 'draw'),
 }
 PREDEFINED_CODES = tuple(PREDEFINED)
-CUSTOM_CODES = ('XHE', 'X5S', 'X5D', 'XGRK', 'XKUHN', 'XA5', 'XO5', 'XSHL')
+CUSTOM_CODES = ('XHE', 'X5S', 'X5D', 'XGRK', 'XKUHN', 'XA5', 'XO5', 'XSHL', 'XDM')
 BOARD_CODES = ('FT', 'NT', 'NS', 'NR', 'PO', 'FO8', 'XHE', 'XGRK', 'XO5')
 
 STACK_UNITS = (1, 2, 3, 5, 8, 13, 20, 40, 100, 200)
@@ -170,7 +170,7 @@ def gen_config(ch, bias=None):
     code = ch.choice('cfg.variant', codes)
     cfg['variant'] = code
     maxp = PREDEFINED[code][2] if code in PREDEFINED else {
-        'XHE': 9, 'X5S': 8, 'X5D': 6, 'XGRK': 9, 'XKUHN': 2, 'XA5': 6, 'XO5': 6, 'XSHL': 7}[code]
+        'XHE': 9, 'X5S': 8, 'X5D': 6, 'XGRK': 9, 'XKUHN': 2, 'XA5': 6, 'XO5': 6, 'XSHL': 7, 'XDM': 6}[code]
     maxp = min(maxp, bias.get('max_players', 9))
     minp = min(bias.get('min_players', 2), maxp)
     cfg['n'] = n = minp + ch.pick('cfg.n', maxp - minp + 1)
@@ -266,9 +266,11 @@ def gen_custom(ch, code, bias):
     elif code in ('X5S', 'XSHL'):
         c['burns'] = [bool(ch.pick('cfg.x.burn', 2)) for _ in range(6)]
         c['low'] = bool(ch.pick('cfg.x.low', 2)) if code == 'X5S' else False
-    elif code in ('X5D', 'XA5'):
+    elif code in ('X5D', 'XA5', 'XDM'):
         c['draws'] = 1 + ch.pick('cfg.x.draws', 3)
         c['burns'] = [bool(ch.pick('cfg.x.burn', 2)) for _ in range(6)]
+        if code == 'XDM':       # draw game with mixed facings: some hole cards are dealt face up
+            c['facings'] = [bool(ch.pick('cfg.x.facing', 2)) for _ in range(5)]
     elif code == 'XGRK':
         c['burns'] = [True] * 6
     elif code == 'XO5':
@@ -308,11 +310,12 @@ def custom_spec(cfg, autos):
             streets.append(Street(c['burns'][i], (True,), 0, False, Opening.HIGH_HAND, bb if i < 1 else big, cap))
         streets.append(Street(c['burns'][3], (False,), 0, False, Opening.HIGH_HAND, big, cap))
         return Deck.STANDARD, (H.StandardHighHand, H.RegularLowHand), tuple(streets), structure
-    if code in ('X5D', 'XA5'):
-        streets = [Street(False, (False,) * 5, 0, False, Opening.POSITION, bb, cap)]
+    if code in ('X5D', 'XA5', 'XDM'):
+        facings = tuple(c.get('facings', (False,) * 5))
+        streets = [Street(False, facings, 0, False, Opening.POSITION, bb, cap)]
         for i in range(c['draws']):
             streets.append(Street(c['burns'][i], (), 0, True, Opening.POSITION, bb if i < 1 else big, cap))
-        if code == 'X5D':
+        if code in ('X5D', 'XDM'):
             return Deck.STANDARD, (H.StandardHighHand,), tuple(streets), structure
         return Deck.REGULAR, (H.RegularLowHand,), tuple(streets), structure
     if code == 'XGRK':
